@@ -62,3 +62,30 @@ func HarnessWork() {
 	vh.Assert("C19/work-nonneg", vh.BigLe(big.NewInt(0), got))
 	vh.Reach("end")
 }
+
+// HarnessWorkRepeated: the work is a function of the bits only - not of what was computed
+// before. After a call on one of three fixed encodings (a positive, a negative and a zero
+// target), an arbitrary encoding is evaluated twice in a row: both results are the formula's
+// value. (A result cache, or a package-level big.Int constant modified in place, passes every
+// single-call check.) The target is evaluated before the first call so that the reference does
+// not depend on the state the calls may leave behind.
+func HarnessWorkRepeated() {
+	bits := vh.NondetU32("bits")
+	_ = vh.Concrete(bits >> 24)
+	t := domains.CompactToBig(bits)
+	one := big.NewInt(1)
+	two256 := new(big.Int).Exp(big.NewInt(2), big.NewInt(256), nil)
+	pos := vh.BigLt(big.NewInt(0), t)
+	den := vh.IteBig(pos, new(big.Int).Add(t, one), one)
+	want := vh.IteBig(pos, new(big.Int).Div(two256, den), big.NewInt(0))
+
+	first := []uint32{0x1d00ffff, 0x1d80ffff, 0x1d000000}[vh.Choose(3)]
+	_ = domains.CalculateWork(first)
+	got1 := domains.CalculateWork(bits).BigInt()
+	got2 := domains.CalculateWork(bits).BigInt()
+	vh.Observe("work", got2)
+	vh.Assert("C19/work-independent-of-earlier-calls", vh.And(vh.BigEq(got1, want), vh.BigEq(got2, want)))
+	// and the target decoder as well
+	vh.Assert("C19/work-independent-of-earlier-calls", vh.BigEq(domains.CompactToBig(bits), t))
+	vh.Reach("end")
+}
